@@ -369,6 +369,46 @@ pub fn check_reserve(sc: &Scenario, m: &Materialised, txs: &[TxEnv], seq: &Grevm
                             return Err(format!("tx {i}: forced revert changed the code of {} which is not an authority of this transaction", d.address));
                         }
                     }
+                    // "charged": the sender pays exactly the gas the result reports at the effective
+                    // price (the transaction's value and every execution transfer are discarded), and
+                    // the fee recipient is credited for exactly that gas
+                    {
+                        let basefee = m.block.basefee as u128;
+                        let eff = tx.effective_gas_price(basefee);
+                        let tip = eff.saturating_sub(basefee);
+                        let used = U256::from(res_on.tx_gas_used());
+                        let fee = used * U256::from(eff);
+                        let reward = used * U256::from(tip);
+                        let post = |a: Address, pre: U256| delta_on.iter().find(|d| d.address == a).map_or(pre, |d| if d.deleted { U256::ZERO } else { d.balance });
+                        let pre_sender = state.basic(sender).ok().flatten().map_or(U256::ZERO, |p| p.balance);
+                        let mut want_sender = pre_sender.saturating_sub(fee);
+                        if sender == benef {
+                            want_sender = want_sender.saturating_add(reward);
+                        }
+                        let got_sender = post(sender, pre_sender);
+                        if got_sender != want_sender {
+                            return Err(format!("tx {i}: forced revert: the sender's balance went {pre_sender} -> {got_sender}, but the result reports {used} gas at price {eff}: expected {want_sender}"));
+                        }
+                        if benef != sender && !reward.is_zero() {
+                            let pre_b = state.basic(benef).ok().flatten().map_or(U256::ZERO, |p| p.balance);
+                            if let Some(want_b) = pre_b.checked_add(reward) {
+                                let got_b = post(benef, pre_b);
+                                if got_b != want_b {
+                                    return Err(format!("tx {i}: forced revert: the fee recipient's balance went {pre_b} -> {got_b}, expected a credit of {reward} ({used} gas at tip {tip})"));
+                                }
+                            }
+                        }
+                    }
+                    // "keeps ... authorisation effects": the code of every authority is what the
+                    // policy-off execution leaves (only authorisation processing can change an EOA's code)
+                    for a in &authorities {
+                        let pre_code = state.basic(*a).ok().flatten().map_or(revm::primitives::KECCAK_EMPTY, |p| p.code_hash);
+                        let on_code = delta_on.iter().find(|d| d.address == *a && !d.deleted).map_or(pre_code, |d| d.code_hash);
+                        let off_code = off.state.get(a).filter(|x| x.is_touched()).map_or(pre_code, |x| x.info.code_hash);
+                        if on_code != off_code {
+                            return Err(format!("tx {i}: forced revert dropped an authorisation effect: code hash of authority {a} is {on_code} but the policy-off execution leaves {off_code} (before the transaction: {pre_code})"));
+                        }
+                    }
                     // "keeps ... the authorisation refund": every authorisation that took effect (the
                     // committed nonce bump beyond the sender's own) on an account that existed before
                     // earns PER_EMPTY_ACCOUNT_COST - PER_AUTH_BASE_COST = 12500 of refund in stock revm,
